@@ -91,6 +91,8 @@ def run_history(history, budget_s=5):
             d.dispatch_enabled = True
         elif kind == 'disable':
             d.dispatch_enabled = False
+        elif kind == 'clear':
+            d.clear()
         elif kind == 'raise':
             raise Boom()
         elif kind == 'script':
@@ -291,7 +293,32 @@ def families(tier):
     # mixed events in order
     yield 'C04', H2 + [('add', 'a'), ('add', 'c'), ('disable',), ('dispatch', 'e', (1,)),
                        ('dispatch', 'f', (2,)), ('dispatch', 'e', (3,)), ('enable',)]
+    # C04: listener turnover while events are pending - the last listener of a name leaves
+    # (removed or collected) and another one arrives before dispatching is enabled again
+    turn = [('remove', 'a'), ('remove', 'b'), ('remove', 'c'), ('drop', 'a'), ('drop', 'b'),
+            ('add', 'a'), ('add', 'b'), ('add', 'c')]
+    for start in (['a'], ['b'], ['a', 'b'], ['a', 'c'], ['b', 'c']):
+        for k in (1, 2, 3):
+            for combo in itertools.product(turn, repeat=k):
+                dropped = set()
+                ok = True
+                for o in combo:
+                    if o[0] == 'drop':
+                        dropped.add(o[1])
+                    elif o[1] in dropped:
+                        ok = False
+                if not ok:
+                    continue
+                yield 'C04', H2 + [('add', h) for h in start] + [
+                    ('disable',), ('dispatch', 'e', (1,)), ('dispatch', 'f', (2,)), ('dispatch', 'e', (3,))] \
+                    + list(combo) + [('enable',), ('dispatch', 'e', (4,))]
     # C10: handlers dropped between operations and in the middle of a dispatch
+    # ... after a callback of the same dispatch cleared the whole dispatcher
+    for extra in ((), (('disable',),)):
+        yield 'C10', H2 + [('add', 'a'), ('add', 'b'),
+                           ('script', 'a', 'e', 1, [('clear',), ('drop', 'b')]),
+                           ('script', 'b', 'e', 1, [('clear',), ('drop', 'a')])] + list(extra) + [
+                           ('dispatch', 'e', (7,)), ('enable',), ('dispatch', 'e', (8,))]
     yield 'C10', H2 + [('add', 'a'), ('add', 'b'), ('drop', 'a'), ('dispatch', 'e', (1,)),
                        ('dispatch', 'f', (1,))]
     for first, second in (('a', 'b'), ('b', 'a')):
